@@ -230,13 +230,35 @@ func runC06(c *Ctx, r *Rec) {
 		}
 		var adds, dones []ast.Node
 		gGroup := mapObj(group)
+		// the goroutine may be a method of a private struct that was filled with the helper's
+		// variables (go pump.fork()): the group is then a field of the method's receiver
+		var groupField *types.Var
+		if sel, ok := ast.Unparen(goStmt.Call.Fun).(*ast.SelectorExpr); ok && starter == nil {
+			if holder := identObj(info, sel.X); holder != nil {
+				ast.Inspect(fd.Body, func(x ast.Node) bool {
+					if kv, ok := x.(*ast.KeyValueExpr); ok && isObj(info, kv.Value, group) {
+						if id, ok := kv.Key.(*ast.Ident); ok {
+							if fv, ok := info.Uses[id].(*types.Var); ok && fv.IsField() {
+								groupField = fv.Origin()
+							}
+						}
+					}
+					if as, ok := x.(*ast.AssignStmt); ok && len(as.Lhs) == 1 && len(as.Rhs) == 1 && isObj(info, as.Rhs[0], group) {
+						if se, ok := ast.Unparen(as.Lhs[0]).(*ast.SelectorExpr); ok && isObj(info, se.X, holder) {
+							groupField = selectorField(info, se)
+						}
+					}
+					return true
+				})
+			}
+		}
 		if starter == nil {
 			for _, scope := range []ast.Node{fd.Body, gbody} {
 				if scope == ast.Node(gbody) && containsNode(fd.Body, gbody) {
 					continue // a literal: already visited
 				}
 				ast.Inspect(scope, func(x ast.Node) bool {
-					if rx, mname, call, ok := methodCall(x); ok && (isObj(info, rx, group) || (gGroup != nil && isObj(info, rx, gGroup))) {
+					if rx, mname, call, ok := methodCall(x); ok && (isObj(info, rx, group) || (gGroup != nil && isObj(info, rx, gGroup)) || (groupField != nil && selectorField(info, rx) == groupField)) {
 						switch mname {
 						case "Add":
 							adds = append(adds, call)
